@@ -247,3 +247,40 @@ Print Assumptions C08_residue_instance.
 (* the hypotheses are satisfiable *)
 Example C08_example_cfg : cfg_clean sample_cfg.
 Proof. exact sample_cfg_clean. Qed.
+
+(* ---------------------------------------------------------------------------------------------
+   The server's own Date field (Model/HttpDate.v: build_http_date over a Gallina gmtime -- days since
+   1970-01-01 turned into a civil date by the era / day-of-era computation; the name tables are compared
+   with the source on every run and K-date runs the real function).  The theorems above assume
+   "cfg_clean c": the ident and the date of the configuration contain no CR / LF.  For the date this is
+   no assumption: for EVERY time stamp the value consists of printable ASCII only, and up to the year
+   9999 it is an IMF-fixdate  Www, DD Mon YYYY HH:MM:SS GMT  of 29 characters (month and day bounds by a
+   complete sweep over the 146097 days of a 400-year era, lifted to all days). *)
+From WV Require Model.HttpDate Proof.HttpDate.
+Module HD := WV.Model.HttpDate.
+Module HDP := WV.Proof.HttpDate.
+
+Theorem C08_date_clean : forall when : N,
+  clean (HD.build_http_date when) /\ Forall HDP.printable (HD.build_http_date when).
+Proof.
+  exact (fun when => conj (proj2 (Bool.orb_false_iff _ _) (HDP.date_memb_crlf when)) (HDP.date_printable when)).
+Qed.
+Print Assumptions C08_date_clean.
+
+Theorem C08_date_shape : forall when : N,
+  (1000 <= HD.tm_year (HD.gmtime when) <= 9999)%N ->
+  exists W D M Y h m s,
+    HD.build_http_date when = W ++ [44; 32] ++ D ++ [32] ++ M ++ [32] ++ Y ++ [32] ++ h ++ [58] ++ m ++ [58] ++ s ++ [32; 71; 77; 84] /\
+    In W HD.weekdayname /\ In M HD.monthname /\
+    length D = 2%nat /\ length Y = 4%nat /\ length h = 2%nat /\ length m = 2%nat /\ length s = 2%nat /\
+    Forall HDP.digit D /\ Forall HDP.digit Y /\ Forall HDP.digit h /\ Forall HDP.digit m /\ Forall HDP.digit s /\
+    length (HD.build_http_date when) = 29%nat.
+Proof. exact HDP.date_shape. Qed.
+Print Assumptions C08_date_shape.
+
+Theorem C08_date_examples :
+  HD.build_http_date 0 = [84;104;117;44;32;48;49;32;74;97;110;32;49;57;55;48;32;48;48;58;48;48;58;48;48;32;71;77;84]%N /\
+  HD.tm_year (HD.gmtime 951782400) = 2000%N /\ HD.tm_mon (HD.gmtime 951782400) = 2%N /\ HD.tm_mday (HD.gmtime 951782400) = 29%N /\
+  HD.tm_year (HD.gmtime 253402300799) = 9999%N.
+Proof. exact HDP.date_examples. Qed.
+Print Assumptions C08_date_examples.
